@@ -413,13 +413,17 @@ def r8_results_untouched(ctx, chk, rule="C16.1"):
     report writer, a post-processing step) and mutates an entry or one of its vectors in place changes what the text report says
     the batch produced."""
     from ..pointsto import PointsTo
-    f = ctx.func("conditionalrewards.py::main")
-    cfg = ctx.cfg(f)
-    res = None
-    for st in walk_no_nested_defs(f.node):
-        if isinstance(st, ast.Assign) and len(st.targets) == 1 and isinstance(st.targets[0], ast.Name) and isinstance(st.value, ast.Call) and call_name(st.value) == "run_games":
-            res = st.targets[0].id
-    saves = [c for c in walk_no_nested_defs(f.node) if isinstance(c, ast.Call) and call_name(c) == "save_results_to_file"]
+    # judged with every command-line option live (a second report behind a new switch counts); the documented-configuration view
+    # only when run_games / the save are not visible there (they moved into a helper that view writes back in)
+    for f in (ctx.prog.pipeline_view("conditionalrewards.py::main", all_options=True), ctx.func("conditionalrewards.py::main")):
+        cfg = ctx.cfg(f)
+        res = None
+        for st in walk_no_nested_defs(f.node):
+            if isinstance(st, ast.Assign) and len(st.targets) == 1 and isinstance(st.targets[0], ast.Name) and isinstance(st.value, ast.Call) and call_name(st.value) == "run_games":
+                res = st.targets[0].id
+        saves = [c for c in walk_no_nested_defs(f.node) if isinstance(c, ast.Call) and call_name(c) == "save_results_to_file"]
+        if res is not None and len(saves) == 1:
+            break
     if res is None or len(saves) != 1:
         chk.undecided(rule, f.where(), "main() does not keep the result of run_games in a variable that it then saves")
         return
